@@ -20,7 +20,8 @@ class Loader:
         self.registry = {}
         self.patches = patches or {}
         self.sources = {}
-        self.builtin_overrides = builtin_overrides or {}
+        self.builtin_overrides = dict(open=symlibs.mem_open)
+        self.builtin_overrides.update(builtin_overrides or {})
         npm = types.ModuleType("numpy")
         npm.__dict__.update({k: v for k, v in symnp.__dict__.items() if not k.startswith("__")})
         self.np_random = symlibs.make_random_module()
